@@ -88,9 +88,10 @@ func VerifHarness_C02_chain() {
 // Inside the cool-down of an accepted request scan 2 must not change the
 // group; after it (or after a refused request) it must act again.
 // shape: [nodes, scan-1 outcome (0 accepted, 1 refused by cloud max), class menu for scan 2,
-//         fleet (1 = launch-template mode: the cloud call of scan 1 blocks ~2 s until the instances are ready)]
+//         fleet (1 = launch-template mode: the cloud call of scan 1 blocks ~2 s until the instances are ready),
+//         failure budget of scan 1 (any one API call of the scan, cloud or Kubernetes, may fail)]
 func VerifHarness_C02() {
-	N, refused, menu, fleet := verifShape(0), verifShape(1), verifShape(2), verifShape(3)
+	N, refused, menu, fleet, F1 := verifShape(0), verifShape(1), verifShape(2), verifShape(3), verifShape(4)
 	w := newWorld(0)
 	o := groupOpts(0)
 	cd := int64(2 + verifChoice("cooldown", 2)) // 2s or 3s (real sleeps in native replay)
@@ -115,13 +116,18 @@ func VerifHarness_C02() {
 	w.symPods("", g, 2, 1, false, int64(N)*w.cpuPerNode, false)
 	w.build()
 	mark1 := len(w.J.Calls)
+	w.J.FailBudget = F1
+	tBefore := verifClockNanos()
 	_ = w.ctrl.RunOnce()
+	w.J.FailBudget = w.J.Failed
 	j1 := w.summarize(g, mark1)
 	accepted := j1.increases > 0 || (fleet == 1 && j1.added > 0)
 	if refused == 1 {
 		verifAssert("C02.harness-scan1-refused", !accepted)
-	} else {
+	} else if F1 == 0 {
 		verifAssert("C02.harness-scan1-accepted", accepted)
+	} else if accepted && w.J.Failed > 0 {
+		verifReach("C02.accepted-in-a-scan-with-a-failed-call")
 	}
 
 	gap := verifInt("gap", 0, cd+2)
@@ -146,11 +152,14 @@ func VerifHarness_C02() {
 	mark2 := len(w.J.Calls)
 	_ = w.ctrl.RunOnce()
 	verifUnfreezeClock()
+	tAfter := verifClockNanos()
 	j2 := w.summarize(g, mark2)
 
-	// lock time and the second scan's clock reading are at most 2 s of jitter apart
-	inside := verifAnd(accepted, gap+2 <= cd)
+	// the lock was taken after tBefore and scan 2 consulted it before tAfter: when less than the
+	// cool-down lies between the two readings, scan 2 ran inside the cool-down -- to the nanosecond
+	inside := verifAnd(accepted, tAfter-tBefore < cd*1_000_000_000)
 	verifAssert("C02.no-activity-in-cooldown", verifImplies(inside, j2.total == 0))
+	verifReachIf("C02.in-cooldown-last-second", verifAnd(inside, gap+1 == cd))
 	verifReachIf("C02.in-cooldown", inside)
 	verifReachIf("C02.in-cooldown-below-min", verifAnd(inside, s.untainted < int64(o.MinNodes)))
 
